@@ -14,7 +14,7 @@ from pydcop.algorithms import AlgorithmDef, load_algorithm_module
 ALGOS = [("dpop", {}), ("dsa", {"stop_cycle": 5}), ("mgm", {"stop_cycle": 5}), ("maxsum", {}), ("adsa", {}), ("mgm2", {"stop_cycle": 4})]
 
 
-def one_run(hid, inst, algo, params, kind, nag, r, with_scenario=False):
+def one_run(hid, inst, algo, params, kind, nag, r, with_scenario=False, delay=None, collect="value_change", period=None):
     dcop, doms = make(inst, nag)
     mod = load_algorithm_module(algo)
     gm = importlib.import_module("pydcop.computations_graph." + mod.GRAPH_TYPE)
@@ -31,12 +31,12 @@ def one_run(hid, inst, algo, params, kind, nag, r, with_scenario=False):
                              DcopEvent("d2", delay=0.15)])
         timeout = 1.0
     orch, rec, err = threaded_solve(dcop, algo_def, cg, dist, infinity=10000, timeout=timeout, switch=r.choice([1e-6, 1e-5, 1e-4, 5e-3]),
-                                    scenario=scenario)
+                                    scenario=scenario, delay=delay, collect_moment=collect, period=period)
     events = sorted(rec.events, key=lambda e: e["seq"])
     known = [e for e in events if e["agent"] in rec.owner][:4000]      # (a prefix: enter/exit pairs cut at the end are harmless)
     return {"id": hid, "owner": rec.owner, "events": [{k: e[k] for k in ("agent", "comp", "kind", "tid", "ph")} for e in known]}, \
         {"algo": algo, "dist": kind, "agents": nag, "shape": inst["shape"], "status": orch.status if orch else "?", "err": err, "scenario": with_scenario,
-         "unowned": sorted({e["agent"] for e in events if e["agent"] not in rec.owner})}
+         "unowned": sorted({e["agent"] for e in events if e["agent"] not in rec.owner}), "delay": delay, "collect": collect}
 
 
 def run(tier):
@@ -59,6 +59,14 @@ def run(tier):
     for i in range(3 if quick else 20):
         inst = r.choice(insts)
         rec, m = one_run(len(recs), inst, "adsa" if i % 2 else "maxsum", {}, "random", 3, r, with_scenario=True)
+        meta[rec["id"]] = m
+        recs.append(rec)
+    # the run options that change how things are scheduled: a delivery delay for algorithm messages, and the two other metrics
+    # collection modes (periodic reports; reports at cycle changes)
+    for i in range(4 if quick else 24):
+        inst = r.choice(insts)
+        opts = [dict(delay=0.01), dict(collect="period", period=0.02), dict(collect="cycle_change"), dict(delay=0.005, collect="period", period=0.05)][i % 4]
+        rec, m = one_run(len(recs), inst, ["dpop", "mgm", "dsa", "maxsum"][i % 4], {"stop_cycle": 5} if i % 4 in (1, 2) else {}, "random", 3, r, **opts)
         meta[rec["id"]] = m
         recs.append(rec)
     # the end of an agent's life, where the thread that asked for the shutdown could end up doing the agent's work: paths of
@@ -98,7 +106,7 @@ def run(tier):
     v.cov["callbacks_by_kind"] = kinds
     v.cov["exhaustive"] = False
     v.cov["rule"] = ("%d real-thread orchestrated runs (algorithms dpop, dsa, mgm, mgm2, maxsum, adsa; TLC-drawn DCOPs over 8 shapes; oneagent and "
-                     "random distributions on 2-3 agents, some runs with a scenario removing an agent; switch interval drawn from {1e-6 .. 5e-3}); every start / on_message / pause of every "
+                     "random distributions on 2-3 agents, some runs with a scenario removing an agent, some with a delivery delay or the period / cycle_change metrics modes; switch interval drawn from {1e-6 .. 5e-3}); every start / on_message / pause of every "
                      "computation added to an agent, every periodic action and every discovery callback registered from a computation callback is "
                      "recorded with its thread; plus %d runs of one real agent whose loop is stepped along Messaging.tla paths containing a clean shutdown, "
                      "followed by Agent.join() from the caller; non-trivial = a DCOP computation handled at least one message" % (n, len(srecs)))
